@@ -2105,7 +2105,7 @@ def run(ctx) -> None:
         "the statement forms of `_stringify` (assignment, one-line if/for, del, expression statement) are modelled and compared with refurb but have no grammar/theorem",
         "lexical level: that `render` of a literal token lexes back to the same value (escapes via repr) is validated against CPython on every generated text, not proved",
         "whole-tree placeholder theorem: `placeholder_sites` is the one-step statement per `stringify` site",
-        "templates of checks not in Model `templates` (the table covers 29 checks) are covered by the oracle only",
+        "fragments the extractor classifies `unmodelled` (statement lists, decorators, generator expressions of FURB122/142, holes inside names or literals) and raw (non-stringify) holes are covered by the oracle only",
         "the printer twin (harness, Python) that attributes violations to recorded causes is validated against refurb on every generated expression, not proved; a wrong attribution can only turn a known finding into an alarm or the reverse for texts the twin reproduces exactly",
     ]
     res.trusted_extra += [
